@@ -170,6 +170,12 @@ def _instance(spec, emit, name, rng, base, first):
                 cdf_d.initialize(X, y)
             if has("initialize_sparse") and sparse_ok:
                 cdf_s.initialize_sparse(data, indptr, indices, y)
+        small_res = False
+        if name == "SqrtQuadratic" and k == 3:
+            # a nearly exact fit: residual 1e-3 |y|.  The datafit documents that its gradient refuses this regime
+            # (SmallResidualException); what it may not do is return a number that is not the gradient
+            y = z + 1e-3 * norm(z) * (lambda u: u / norm(u))(rng.standard_normal(n)) if norm(z) > 0 else y
+            small_res = bool(norm(z - y) < 1e-2 * norm(y))
         nontriv = bool(np.any(w != 0))
         sample = None
         if first and k == 1:
@@ -216,6 +222,10 @@ def _instance(spec, emit, name, rng, base, first):
                 _cmp(emit, cid0 + "/raw_grad", name + ".raw_grad", cdf_d.raw_grad(y, Xw), rg_ref,
                      1e-9 * (1 + np.abs(rg_ref)), None, ex_d, nontriv)
             except Exception as e:
+                if small_res and "SmallResidual" in repr(e):
+                    emit(dict(id=cid0 + "/raw_grad", cell=name + ".raw_grad", status="held", nontrivial=True,
+                              digest=digest(cid0, "small-residual"), hist={"documented_refusal": "SmallResidualException"}))
+                    continue
                 _err(emit, cid0 + "/raw_grad", name + ".raw_grad", e)
         # ------------------------------------------------------------------ full gradients
         if has("gradient") and name != "QuadraticMultiTask":
